@@ -503,7 +503,7 @@ class LinkDim:
         if any(t.data.shape[q] == 0 for q in range(t.data.ndim) if q != ax):
             return None
         index = [-1 if q == ax else rng.randrange(t.data.shape[q]) for q in range(t.data.ndim)]
-        return {"op": "link_dim", "dim": i, "tgt": j, "index": index}
+        return {"op": "link_dim", "dim": i, "tgt": j, "index": index, "dv": P.pick(rng, [0, 4])}
 
     def do(self, run, o):
         dims = [d for d in run.enum("dim") if d.dimension_type in ("range", "set")]
@@ -519,7 +519,7 @@ class LinkDim:
             return res(NOOP)
         if d.link is not None and d.link.target is None:
             return res(NOOP)      # relinking a dead link: outside the property
-        dh = run.R(d, 0)
+        dh = run.R(d, o.get("dv", 0))
         th = run.R(t, o.get("tv", 0))
         run.expect_ok(run.call(lambda: dh.link_data_array(th, list(index))), "link_dim")
         d.link = M.MDimLink(t, index)
@@ -538,14 +538,14 @@ class UnlinkDim:
         dims = [d for d in run.enum("dim") if d.link is not None and d.link.target is not None]
         if not dims:
             return None
-        return {"op": "unlink_dim", "dim": idx(rng)}
+        return {"op": "unlink_dim", "dim": idx(rng), "dv": P.pick(rng, [0, 4])}
 
     def do(self, run, o):
         dims = [d for d in run.enum("dim") if d.link is not None and d.link.target is not None]
         if not dims:
             return res(NOOP)
         d = dims[o["dim"] % len(dims)]
-        dh = run.R(d, 0)
+        dh = run.R(d, o.get("dv", 0))
         run.expect_ok(run.call(dh.remove_link), "unlink_dim")
         d.link = None
         d._ticks = None
@@ -707,7 +707,7 @@ class SetDim:
         d = dims[i % len(dims)]
         attrs = sorted(a for (k, a) in DIM_SETTERS if k == d.dimension_type)
         a = P.pick(rng, attrs)
-        return {"op": "set_dim", "dim": i, "attr": a, "val": DIM_SETTERS[(d.dimension_type, a)](rng)}
+        return {"op": "set_dim", "dim": i, "attr": a, "val": DIM_SETTERS[(d.dimension_type, a)](rng), "dv": P.pick(rng, [0, 4])}
 
     def do(self, run, o):
         d = run.pick("dim", o["dim"])
@@ -722,7 +722,7 @@ class SetDim:
             dh = run.R(d, 0)
             run.expect_refused(run.call(lambda: setattr(dh, a, v)), "set_dim_labels", "linked")
             return res(REFUSED)
-        dh = run.R(d, 0)
+        dh = run.R(d, o.get("dv", 0))
         run.expect_ok(run.call(lambda: setattr(dh, a, v)), "set_dim_" + a)
         touch = {}
         if d.dimension_type == "sample":
@@ -1422,6 +1422,22 @@ def observe_all_paths(run, m, site, oracle="alias_view"):
         if d is not None:
             run.violation(oracle, site, "%s:%s:%s" % (m.kind, label.split(":")[0], K.diff_class(d)),
                           "through %s at %s: real=%s model=%s" % (label, d[0], d[1], d[2]))
+    if m.kind == "array":
+        # descriptor objects obtained earlier show what fresh ones show
+        for dm in m.dimensions:
+            want_d = K.walk_dim(dm)
+            if not run.pool.get(dm.uid):
+                run.R(dm, 0)          # from now on this descriptor object is an "older" one
+            for dh in list(run.pool.get(dm.uid, []))[:4]:
+                try:
+                    got_d = K.walk_dim(dh)
+                except Exception as e:  # noqa
+                    got_d = K.Raises(e)
+                d = K.deep_diff(got_d, want_d)
+                if d is not None:
+                    run.violation(oracle, site, "dim:pooled:%s" % K.diff_class(d),
+                                  "older descriptor object of %s dim %d at %s: real=%s model=%s" % (m.name, dm.index, d[0], d[1], d[2]))
+                run.stats["older_descriptor_observations"] += 1
     # "the original entity itself": every path's handle equals (==, !=, hash) the directly fetched one
     base = handles[0][1]
     if hasattr(type(base), "id"):
